@@ -7,6 +7,7 @@ import Mathlib.Data.List.Perm.Subperm
 -/
 namespace EG
 namespace T
+namespace SearchAux
 
 variable (nb : Nat → List Nat) (inU : Nat → Bool) (ffr : Nat → Bool) (p : Nat → Bool)
 
@@ -419,5 +420,6 @@ theorem dfsRecursive_eq_find (n : Nat) (hb : Bounded nb n) (s : Nat) (hs : s < n
     | some x => rw [hc] at this; simp only [] at this; exact this.symm
     | none => rw [hc] at this; simp only [] at this; exact this.2.1.symm
 
+end SearchAux
 end T
 end EG
